@@ -408,7 +408,22 @@ func (v *View) checkC08(res *Result) {
 		case "cb.promote":
 			res.Obs["c08.promotes"]++
 			if P[e.Inst] > D[e.Inst] {
-				res.viol("C08", "alternation", "two-promotions", fmt.Sprintf("%s: promotion callback invoked twice in a row (P=%d D=%d)", e.Inst, P[e.Inst]+1, D[e.Inst]), idx)
+				why := v.lastTermCause(e.Inst, idx)
+				if why == "stop" {
+					// was the previous term ended by a StopWithContext that does not wait for the callback?
+					var lt *Term
+					for _, t := range v.Terms[e.Inst] {
+						if t.Down >= 0 && t.Down <= idx {
+							lt = t
+						}
+					}
+					for _, a := range v.APIs {
+						if lt != nil && a.Inst == e.Inst && a.API == "StopWithContext" && a.Call < lt.Down && (a.Ret < 0 || a.Ret > lt.Down) && strings.Contains(a.Desc, "wait=false") {
+							why = "stop-nowait"
+						}
+					}
+				}
+				res.viol("C08", "alternation", "two-promotions:prev-term-end="+why, fmt.Sprintf("%s: promotion callback invoked twice in a row (P=%d D=%d; previous term ended by %s)", e.Inst, P[e.Inst]+1, D[e.Inst], why), idx)
 			}
 			P[e.Inst]++
 			lastKind[e.Inst] = e.Kind
@@ -700,18 +715,16 @@ func (v *View) checkC19(res *Result) {
 		if term == nil {
 			continue
 		}
+		// only callbacks that block on their context are sampled: "done" means the
+		// callback saw Done() (or the context is done while the callback still runs)
 		done := e.Flag
-		returned := e.OK
 		active := term.Down < 0 || term.Down > idx
 		if active {
 			res.Obs["c19.live_checks"]++
-			if done && !returned {
-				res.viol("C19", "cancelled-early", "cancelled-while-leading", fmt.Sprintf("%s term %s: context done while still leading and callback running", e.Inst, e.Token), idx)
+			if done {
+				res.viol("C19", "cancelled-early", "cancelled-while-leading", fmt.Sprintf("%s term %s: promotion context done while the instance still leads that term", e.Inst, e.Token), idx)
 			}
 		} else {
-			if returned {
-				continue // the library's deferred cancel has run; nothing to observe
-			}
 			res.Obs["c19.ended_checks"]++
 			res.Obs["c19.ended_cause."+term.Cause]++
 			if !done {
